@@ -101,7 +101,7 @@ def _child(testdir):
                 "itol": cell(kw.get("itol", 1e-6)), "energy": bool(kw.get("energy", False)), "maxiter": int(kw.get("maxiter", 10000))}
         return {"id": cid, "built": True, "st": project(s), "args": args, "kw": {}, "outcome": "ok", "exc": "", "msg": "",
                 "table": drv_solve.table_wire(df), "rail": {"cols": ["none"], "rows": [], "isnone": True},
-                "hasrail": False, "railexc": "", "has_design": False, "design": [], "haswant": False, "want": [], "hasedit": False, "edit": {"op": "", "args": {}, "pre": {"comps": [], "sysph": [], "anom": []}}, "has_slice": False,
+                "hasrail": False, "railexc": "", "has_design": False, "design": [], "haswant": False, "want": [], "wantlim": [], "hasedit": False, "edit": {"op": "", "args": {}, "pre": {"comps": [], "sysph": [], "anom": []}}, "has_slice": False,
                 "slice_of": {"cols": ["none"], "rows": [], "isnone": True}}
 
     # the wrapper installed by the recorder records the call as an analysis event; the plugin above is installed
